@@ -1,5 +1,8 @@
+import Tumfl.Props.C13Text
 import Tumfl.Props.C13
 import Tumfl.Props.C08
+#print axioms Tumfl.Props.C13_text
+#print axioms Tumfl.Props.C13_text_off
 #print axioms Tumfl.Props.C13_parsed
 #print axioms Tumfl.Props.C13_emit_on
 #print axioms Tumfl.Props.C13_emit_off
